@@ -453,3 +453,67 @@ def pipeline(ctx, target, theorems, extra_trusted, cases, binary, oracle, model_
         del ctx.impl_viol[n_iv:]
         ctx.cov["evaluations"], ctx.cov["traces_validated_against_impl"], ctx.cov["distribution"] = ev, tv, dist
         ctx.prove(target, theorems, extra_trusted=extra_trusted)
+
+
+# ------------------------------------------------------------------------------------------- cross-kind prior content
+
+def kind_change_violations(case, out):
+    """Model-independent clauses about what already sits at a key (record keys are shared across kinds: a
+    chunk whose bytes are an owner's public key has the key of that owner's scratchpad / transactions, a
+    chunk of meta++owner has the register's key): a stored chunk is immutable -- nothing ever replaces it --
+    and a stored scratchpad / transaction set / register is only ever replaced by a record of the same kind."""
+    v = []
+    if not isinstance(out, dict) or "results" not in out:
+        return v
+    steps = []
+    if case.get("schedule") is None:
+        for i, r in enumerate(out["results"]):
+            if r.get("store_at_start") is not None and r.get("store_after") is not None:
+                steps.append(("delivery %d" % i, r["store_at_start"], r["store_after"]))
+    steps.append(("whole case", out["store_before"], out["store"]))
+    for where, b, a in steps:
+        before, after = dump_map(b), dump_map(a)
+        for k, sb in before.items():
+            sa = after.get(k)
+            kb = sb["val"].get("t")
+            ka = None if sa is None else sa["val"].get("t")
+            if kb == "chunk" and (sa is None or dumps(sa["val"]) != dumps(sb["val"])):
+                v.append(("chunk-replaced", "%s: the chunk stored at %s (%s) was replaced by %s"
+                          % (where, k, dumps(sb["val"])[:120], "nothing" if sa is None else dumps(sa["val"])[:200])))
+            elif kb in ("pad", "txs", "reg") and ka != kb:
+                v.append(("record-kind-replaced", "%s: the %s stored at %s was replaced by a record of kind %s"
+                          % (where, kb, k, ka)))
+    return v
+
+
+def cross_kind_cases():
+    """every kind of prior content at a coinciding key x every way of delivering each other kind there"""
+    cs = []
+    owner_priors = [held({"t": "chunk", "c": {"pk": 1}}), held(pad(1, 3)), held({"t": "txs", "list": [tx(1, 1)]})]
+    reg_priors = [held({"t": "chunk", "c": {"regpre": [1, 1]}}), held(reg(1, 1, ops=[op(1, 1)]))]
+
+    def variants(body):
+        out = [delivery("repl", body if body["t"] != "tx" else {"t": "txs", "list": [body]}),
+               delivery("client", body, paid=True)]
+        if body["t"] != "tx":
+            out.append(delivery("client", body))                      # unpaid update
+        bad = delivery("client", body, paid=True)                      # paid upload whose payment fails
+        bad["chain"] = {"mode": "rpcerr"}
+        out.append(bad)
+        return out
+
+    owner_bodies = [pad(1, 9), pad(1, 1), tx(1, 2), {"t": "chunk", "c": {"pk": 1}}]
+    reg_bodies = [reg(1, 1, ops=[op(2, 1)]), {"t": "chunk", "c": {"regpre": [1, 1]}}]
+    for priors, bodies in ((owner_priors, owner_bodies), (reg_priors, reg_bodies)):
+        for pr in priors:
+            for b in bodies:
+                for d in variants(b):
+                    cs.append(case("cross-kind", [copy.deepcopy(d)], store=[copy.deepcopy(pr)]))
+            # two-step: the other kind arrives first through an honest path, then the rest
+            for b1 in bodies:
+                for b2 in bodies:
+                    if b1["t"] != b2["t"]:
+                        d1 = delivery("client", b1, paid=True)
+                        for d2 in variants(b2):
+                            cs.append(case("cross-kind-seq", [copy.deepcopy(d1), copy.deepcopy(d2)]))
+    return cs
